@@ -388,8 +388,11 @@ def explore(
                 res["stop"] = "timeout"
                 break
             res["paths"] += 1
+            # the first path pays the one-off costs (imports, pydantic model completion, caches): under a loaded machine
+            # it alone can exceed the per-path budget, which would end the whole search with an unknown root
+            ppt = per_path_timeout * (6 if res["paths"] == 1 else 1)
             space = StateSpace(
-                execution_deadline=itr_start + per_path_timeout,
+                execution_deadline=itr_start + ppt,
                 model_check_timeout=per_path_timeout / 2,
                 search_root=search_root,
             )
